@@ -27,6 +27,7 @@ func TestVerifC13(t *testing.T) {
 		return
 	}
 	rng := hk.NewRNG(hk.Seed(), "c13")
+	hostilePrelude(hk.NewRNG(hk.Seed(), "prelude"))
 	d0 := randScalar(rng)
 	P0 := refPub(d0)
 	px0, py0 := ref.B32(P0.X), ref.B32(P0.Y)
@@ -71,6 +72,56 @@ func TestVerifC13(t *testing.T) {
 		}
 		r.Eval("za:" + cls)
 	})
+	// ids of 8192 bytes or more must be refused WHATEVER their content and length: lengths around every
+	// multiple of 8192 (where a 16-bit ENTL wraps onto a legal value) with contents that start with the
+	// default id, repeat it, are zero, or random
+	{
+		var tooLong []int
+		for k := 1; k <= 9; k++ {
+			for d := -1; d <= 40; d++ {
+				if l := k*8192 + d; l >= 8192 {
+					tooLong = append(tooLong, l)
+				}
+			}
+		}
+		tooLong = append(tooLong, 8192+55, 8192+64, 8192+100, 8192+255, 8192+256, 8192+1000, 8192+4096, 1<<17, 1<<17+16)
+		def := []byte("1234567812345678")
+		hk.Parallel(len(tooLong), func(i int) {
+			l := tooLong[i]
+			for variant := 0; variant < 4; variant++ {
+				id := make([]byte, l)
+				switch variant {
+				case 0:
+					copy(id, def)
+				case 1:
+					for j := range id {
+						id[j] = def[j%16]
+					}
+				case 2:
+					// zeros
+				default:
+					copy(id, idbuf[:min(l, len(idbuf))])
+				}
+				var got []byte
+				var err error
+				p, msg, _, _ := hk.Try(func() { got, err = ZA(id, px0, py0) })
+				if p {
+					r.Violation("za-panics:too-long-id", hk.D{"idlen": l, "panic": msg})
+				} else if err == nil {
+					r.Violation(fmt.Sprintf("za-accepts-too-long-id:len%%8192=%d,content=%d", l%8192, variant), hk.D{"idlen": l, "content_variant": variant, "za": hk.Hex(got)})
+				}
+				// and through the id-level entry points
+				if variant < 2 && i%4 == 0 {
+					_, _, serr := Sign(id, px0, py0, newScript(idbuf[:256]), ref.B32(d0), []byte("m"))
+					ok, _ := Verify(id, px0, py0, []byte("m"), ref.B32(bi(5)), ref.B32(bi(7)))
+					if serr == nil || ok {
+						r.Violation("sign-or-verify-accepts-too-long-id", hk.D{"idlen": l, "content_variant": variant})
+					}
+				}
+			}
+			r.Eval(fmt.Sprintf("za:too-long,len%%8192=%d", l%8192))
+		})
+	}
 	r.Sample(hk.D{"kind": "ZA", "idlen": 8191, "px": hk.Hex(px0), "py": hk.Hex(py0)})
 
 	// ---- wrappers: Sign == SignZa == SignHashed(SM3(ZA||M)) on the same stream;
